@@ -1,5 +1,213 @@
 import Asn1Verif.Base.Text
-/- line protocol, stream `parse` — not implemented yet -/
+import Asn1Verif.Front.Parser
+import Asn1Verif.Front.Resolve
+/-
+  line protocol, stream `parse` (front end: tokens → `Model<Asn<Unresolved>>` → resolve)
+
+    parse mod  <hex text>          → ok <dump of the unresolved model> | err <class>
+    parse rt   <hex text> [...]    → ok <unresolved dump> <resolved dump | err:<class>> | err <class>
+                                     (further arguments are for the oracle and ignored)
+    parse fuzz <hex text>          → ok | err parse:<class> | err resolve:<class> | skip
+
+  The text is tokenized by `simpleTokenize`: split at blanks (` `, `\t`, `\r`, `\n`) and at the 13
+  separator characters.  That agrees with the real tokenizer on text without comments, without
+  control characters and — for the literal reconstruction — with one blank between the tokens of
+  a string literal (canonical rendering).  `fuzz` answers `skip` outside that domain.
+
+  The canonical dump (one token, no blanks) is documented in tools/front_gen.py.
+-/
 namespace Driver.ParseStream
-def handle (_args : List String) : String := "bad-op"
+open Asn1Verif Asn1Verif.Front.Syn Asn1Verif.Text
+
+/-! ### text → tokens -/
+
+def isSeparatorChar (c : Char) : Bool :=
+  c = ':' || c = ';' || c = '=' || c = '(' || c = ')' || c = '{' || c = '}' || c = '.' ||
+  c = ',' || c = '[' || c = ']' || c = '\'' || c = '"'
+
+def isBlank (c : Char) : Bool := c = ' ' || c = '\t' || c = '\r' || c = '\n'
+
+def flush (cur : List Char) (acc : List Token) : List Token :=
+  if cur.isEmpty then acc else .text (String.ofList cur.reverse) :: acc
+
+def tokenizeAux : List Char → List Char → List Token → List Token
+  | [], cur, acc => (flush cur acc).reverse
+  | c :: rest, cur, acc =>
+    if isBlank c then tokenizeAux rest [] (flush cur acc)
+    else if isSeparatorChar c then tokenizeAux rest [] (.sep c :: flush cur acc)
+    else tokenizeAux rest (c :: cur) acc
+
+def simpleTokenize (s : String) : List Token := tokenizeAux s.toList [] []
+
+def decodeText (hex : String) : Option String := do
+  let bs ← hexToBytes hex
+  String.fromUTF8? (ByteArray.mk (bs.map fun b => b.toNat.toUInt8).toArray)
+
+/-! ### canonical dump -/
+
+def sx (head : String) (args : List String) : String :=
+  "(" ++ String.intercalate "," (head :: args) ++ ")"
+
+def hexOfString (s : String) : String :=
+  String.join (s.toUTF8.toList.map fun b => byteToHex (BitVec.ofNat 8 b.toNat))
+
+def hexOfBytes (bs : List Nat) : String :=
+  String.join (bs.map fun b => byteToHex (BitVec.ofNat 8 b))
+
+def dumpTag : Option Tag → String
+  | none => "-"
+  | some (.universal n) => "U" ++ toString n
+  | some (.application n) => "A" ++ toString n
+  | some (.contextSpecific n) => "C" ++ toString n
+  | some (.priv n) => "P" ++ toString n
+
+def dumpCharset : Charset → String
+  | .utf8 => "utf8" | .numeric => "numeric" | .printable => "printable"
+  | .ia5 => "ia5" | .visible => "visible"
+
+def dumpBool (b : Bool) : String := if b then "1" else "0"
+
+def dumpLor {α : Type} (f : α → String) : LitOrRef α → String
+  | .lit a => f a
+  | .ref n => "@" ++ n
+
+def dumpSize {α : Type} (f : α → String) : Size α → String
+  | .any => "any"
+  | .fix n e => sx "fix" [f n, dumpBool e]
+  | .range a b e => sx "range" [f a, f b, dumpBool e]
+
+def dumpOpt {α : Type} (f : α → String) : Option α → String
+  | none => "-"
+  | some a => f a
+
+/-- marker position as the number of root components (`extension_after + 1`) -/
+def dumpExt : Option Nat → String
+  | none => "-"
+  | some k => toString (k + 1)
+
+def dumpLit : LiteralValue → String
+  | .boolean b => sx "b" [dumpBool b]
+  | .string s => sx "s" [hexOfString s]
+  | .integer i => sx "i" [toString i]
+  | .octetString bs => sx "o" [hexOfBytes bs]
+  | .enumeratedVariant t v => sx "e" [t, v]
+
+def dumpConstants {α : Type} (f : α → String) (cs : List (String × α)) : String :=
+  sx "c" (cs.map fun (n, v) => "(" ++ n ++ "," ++ f v ++ ")")
+
+def dumpEnum (e : Enumerated) : String :=
+  sx "enum" (dumpExt e.extAfter :: e.variants.map fun v => sx "v" [v.name, dumpOpt toString v.number])
+
+section
+variable {S I C : Type} (fS : S → String) (fI : I → String) (fC : C → String)
+
+mutual
+def dumpTy : Ty S I C → String
+  | .boolean => "bool"
+  | .null => "null"
+  | .integer r cs => sx "int" [dumpOpt fI r.min, dumpOpt fI r.max, dumpBool r.ext, dumpConstants toString cs]
+  | .string s c => sx "str" [dumpCharset c, dumpSize fS s]
+  | .octetString s => sx "oct" [dumpSize fS s]
+  | .bitString s cs => sx "bit" [dumpSize fS s, dumpConstants toString cs]
+  | .optional t => sx "opt" [dumpTy t]
+  | .sequence fs e => sx "seq" (dumpExt e :: dumpFields fs)
+  | .sequenceOf t s => sx "seqof" [dumpSize fS s, dumpTy t]
+  | .set fs e => sx "set" (dumpExt e :: dumpFields fs)
+  | .setOf t s => sx "setof" [dumpSize fS s, dumpTy t]
+  | .enumerated e => dumpEnum e
+  | .choice vs e => sx "choice" (dumpExt e :: dumpVariants vs)
+  | .typeReference n t => sx "ref" [n, dumpTag t]
+def dumpFields : Fields S I C → List String
+  | .nil => []
+  | .cons n t ty d rest => sx "f" [n, dumpTag t, dumpTy ty, dumpOpt fC d] :: dumpFields rest
+def dumpVariants : Variants S I C → List String
+  | .nil => []
+  | .cons n t ty rest => sx "a" [n, dumpTag t, dumpTy ty] :: dumpVariants rest
+end
+
+def dumpOidComponent : OidComponent → String
+  | .nameForm n => sx "n" [n]
+  | .numberForm k => sx "u" [toString k]
+  | .nameAndNumberForm n k => sx "nn" [n, toString k]
+
+def dumpOid : Option Oid → String
+  | none => "-"
+  | some cs => sx "oid" (cs.map dumpOidComponent)
+
+def dumpImport (i : Import) : String :=
+  sx "imp" [i.«from», dumpOid i.fromOid, sx "w" i.what]
+
+def dumpModule (m : Module S I C) : String :=
+  sx "mod" [m.name, dumpOid m.oid,
+    sx "imports" (m.imports.map dumpImport),
+    sx "vrefs" (m.valueReferences.map fun v => sx "vr" [v.name, dumpTy fS fI fC v.ty, dumpLit v.value]),
+    sx "defs" (m.definitions.map fun d => sx "def" [d.name, dumpTag d.tag, dumpTy fS fI fC d.ty])]
+end
+
+def dumpU (m : UModule) : String :=
+  dumpModule (dumpLor toString) (dumpLor toString) (dumpLor dumpLit) m
+
+def dumpR (m : RModule) : String :=
+  dumpModule toString toString dumpLit m
+
+/-! ### requests -/
+
+def errStr (e : FErr) : String := toString e
+
+def noComment : List Char → Bool
+  | '-' :: '-' :: _ => false
+  | '/' :: '*' :: _ => false
+  | _ :: r => noComment r
+  | [] => true
+
+/-- text on which `simpleTokenize` agrees with the real tokenizer: printable ASCII and blanks,
+    no comment opener -/
+def inTokenDomain (s : String) : Bool :=
+  let cs := s.toList
+  cs.all (fun c => (c.toNat ≥ 32 && c.toNat < 127) || c = '\n' || c = '\t' || c = '\r')
+    && noComment cs
+
+/-- … and on which the outcome class does not depend on the column layout of literals: the
+    content of a `"…"` literal never decides between ok and err, that of a `'…'H/B` literal does
+    when it is spread over several lines (columns restart) -/
+def inFuzzDomain (s : String) : Bool :=
+  let cs := s.toList
+  inTokenDomain s && !(cs.contains '\'' && (cs.contains '\n' || cs.contains '\r'))
+
+def handle (args : List String) : String :=
+  match args with
+  | ["mod", hex] =>
+    match decodeText hex with
+    | none => "bad-op"
+    | some text =>
+      if !inTokenDomain text then "skip" else
+      match parseModule (simpleTokenize text) with
+      | .ok m => "ok " ++ dumpU m
+      | .error e => "err " ++ errStr e
+  | "rt" :: hex :: _ =>
+    match decodeText hex with
+    | none => "bad-op"
+    | some text =>
+      if !inTokenDomain text then "skip" else
+      match parseModule (simpleTokenize text) with
+      | .ok m =>
+        "ok " ++ dumpU m ++ " " ++
+          (match tryResolve m with
+           | .ok r => dumpR r
+           | .error e => "err:" ++ errStr e)
+      | .error e => "err " ++ errStr e
+  | ["fuzz", hex] =>
+    match decodeText hex with
+    | none => "bad-op"
+    | some text =>
+      if !inFuzzDomain text then "skip"
+      else match parseModule (simpleTokenize text) with
+        | .error e => "err parse:" ++ errStr e
+        | .ok m =>
+          match tryResolve m with
+          | .error .fuel => "abort"
+          | .error e => "err resolve:" ++ errStr e
+          | .ok _ => "ok"
+  | _ => "bad-op"
+
 end Driver.ParseStream
